@@ -11,6 +11,7 @@ import HealSparse.Lemmas.DegradeOnRead
 import HealSparse.Model.DegradeOnRead
 import HealSparse.Props.C03
 import HealSparse.Props.C07
+import HealSparse.Lemmas.ApiDor
 namespace HS
 namespace C19
 
@@ -155,6 +156,521 @@ example : (degradeOnRead (V := Int) (W := Int) ⟨4, 1⟩ ⟨-1, fun x => x != -
     (writeFits ⟨#[4, -2, -2, -6], #[-1, -1, 7, -1, 3, 9]⟩) (some [3, 2, 1]) 1
     (fun l => (l.filter (· != -1)).foldl (· + ·) 0) (-1)).map (·.sp) = some #[-1, 7] := by
   decide +kernel
+
+
+/-! ## C19 at the API level
+
+`apiDegradeOnRead f ordOut red pixels wf` (`HealSparseMap.read(file, degrade_nside=…,
+reduction=…, pixels=…, weightfile=…)`) against the reference path `apiReadThenDegrade`
+(`read(file, pixels=…)`, `read(weightfile, pixels=…)`, then `degrade(…, weights=…)`), for every
+well-formed file `f` (`f.WF`, e.g. `apiWrite m md` of any `m.Ok`): argument validation, kind
+recovery from the header, per-kind reductions, output dtype / sentinel rules, pixel subsets and
+the weight-file checks included.  Helpers: Lemmas/ApiDor.lean.
+
+`Agree x y`: `Err.inexact` on either side is no claim; otherwise both are rejected, or both
+succeed with `MapObj.SameAs` results (equal `covord`, `spord`, `kind`, `sent`, `C10.Same`
+states).  `AgreeS` adds: the two rejections are the same exception class.
+
+What is TRUE (proved below):
+ * no weight file, `nside_coverage ≤ nside_out < nside_sparse`, every kind, every reduction name,
+   every pixel request: `AgreeS` (`api_dor_unweighted`), except that
+     – a BOOLEAN map with `and` / `or` is degraded on read but REJECTED in memory
+       (`api_dor_bool_andor`: proved for every boolean file — FINDING);
+     – `wmean` without weights on a wide mask raises different classes (`Agree` only);
+     – (model typing) an integer file must not hold `Val.bool` cells for `and` / `or`.
+ * a weight file with another reduction than `wmean` is ignored by both paths
+   (`api_dor_ignored_weightfile`).
+ * `wmean` with a weight file: whenever both paths succeed the results are `SameAs`
+   (`api_dor_weighted_same`), except for F47 (float32 map, float64 weights: `hF47`).
+   The two paths do NOT reject the same inputs: on read only "the weight file covers every
+   coverage pixel processed" (H1) is checked, in memory only "same valid pixels" (H2);
+   neither implies the other (FINDINGS `weights_extra_valid`, `weights_empty_block` below);
+   under H1 ∧ H2 they agree (`api_dor_weighted`).
+ * outside the range degrade-on-read always raises (`api_dor_out_of_range`) while the in-memory
+   path returns a copy at `nside_out = nside_sparse` (`api_rtd_at_sparse_order`) and re-houses
+   below the coverage resolution.
+-/
+
+open ApiDor
+
+/-- **C19, API level, no weight file** (exception classes included) -/
+theorem api_dor_unweighted {f : FileObj} (hf : f.WF) {ordOut : Nat} (hlo : f.covord ≤ ordOut)
+    (hhi : ordOut < f.spord) (red : String) (pixels : Option (List Nat))
+    (hbool : fileKind f = some (.plain .bool) → (red == "and" || red == "or") = false)
+    (hty : ∀ b sg, fileKind f = some (.plain (.int b sg)) → (red == "and" || red == "or") = true →
+      ∀ v ∈ f.file.data.toList, v.isBoolV = false)
+    (hww : ∀ n, fileKind f = some (.wide n) → (red == "wmean") = false) :
+    AgreeS (apiDegradeOnRead f ordOut red pixels none)
+      (apiReadThenDegrade f ordOut red pixels none) :=
+  dor_unweighted hf hlo hhi red pixels hbool hty hww
+
+/-- the same without the exception-class claim: `wmean` on a wide mask is not excluded -/
+theorem api_dor_unweighted_agree {f : FileObj} (hf : f.WF) {ordOut : Nat} (hlo : f.covord ≤ ordOut)
+    (hhi : ordOut < f.spord) (red : String) (pixels : Option (List Nat))
+    (hbool : fileKind f = some (.plain .bool) → (red == "and" || red == "or") = false)
+    (hty : ∀ b sg, fileKind f = some (.plain (.int b sg)) → (red == "and" || red == "or") = true →
+      ∀ v ∈ f.file.data.toList, v.isBoolV = false) :
+    Agree (apiDegradeOnRead f ordOut red pixels none)
+      (apiReadThenDegrade f ordOut red pixels none) :=
+  dor_unweighted_agree hf hlo hhi red pixels hbool hty
+
+/-- **a weight file is ignored unless the reduction is `wmean`**, by degrade-on-read always and
+    by the reference path as soon as the weight file can be read with the pixel request -/
+theorem api_dor_ignored_weightfile (f w : FileObj) {ordOut : Nat} {red : String}
+    (hred : (red == "wmean") = false) (pixels : Option (List Nat)) :
+    apiDegradeOnRead f ordOut red pixels (some w) = apiDegradeOnRead f ordOut red pixels none ∧
+    (f.covord ≤ ordOut → ordOut < f.spord → ∀ wm, apiRead w pixels = .ok wm →
+      apiReadThenDegrade f ordOut red pixels (some w) = apiReadThenDegrade f ordOut red pixels none) :=
+  ⟨dor_ignored_weights f w ordOut hred pixels,
+    fun hlo hhi _ hwr => rtd_ignored_weights hlo hhi hred hwr⟩
+
+/-- **C19, API level, `wmean` with a weight file: the results** -/
+theorem api_dor_weighted_same {f w : FileObj} (hf : f.WF) (hfk : f.KindOk) (hw : w.WF)
+    {ordOut : Nat} {pixels : Option (List Nat)} {a b : MapObj}
+    (hL : apiDegradeOnRead f ordOut "wmean" pixels (some w) = .ok a)
+    (hR : apiReadThenDegrade f ordOut "wmean" pixels (some w) = .ok b)
+    (hF47 : ∀ dt0, fileKind f = some (.plain dt0) → fileKind w = some (.plain (.flt 64)) →
+      auxDT dt0 = .flt 64) : a.SameAs b :=
+  dor_weighted_same hf hfk hw hL hR hF47
+
+/-- **C19, API level, `wmean` with a weight file: the rejections** (PARTIAL: H1 and H2 cannot
+    be dropped — `weights_empty_block`, `weights_extra_valid`) -/
+theorem api_dor_weighted_partial {f w : FileObj} (hf : f.WF) (hfk : f.KindOk) (hw : w.WF)
+    (hbp : w.bitpack = true → w.arrDT = "u1")
+    {ordOut : Nat} (hlo : f.covord ≤ ordOut) (hhi : ordOut < f.spord) (pixels : Option (List Nat))
+    (H1 : ∀ px, dorPixels (fCfg f) f.file pixels = some px → w.covord = f.covord →
+      w.spord = f.spord → ∀ k ∈ px, covered (fCfg f) (readFull w.file) k = true)
+    (H2 : ∀ r wm, apiRead f pixels = .ok r → apiRead w pixels = .ok wm → wm.covord = r.covord →
+      wm.spord = r.spord → ∀ p, p < r.npix → r.vc.valid (r.abs p) = wm.vc.valid (wm.abs p))
+    (hF47 : ∀ dt0, fileKind f = some (.plain dt0) → fileKind w = some (.plain (.flt 64)) →
+      auxDT dt0 = .flt 64) :
+    Agree (apiDegradeOnRead f ordOut "wmean" pixels (some w))
+      (apiReadThenDegrade f ordOut "wmean" pixels (some w)) :=
+  dor_weighted hf hfk hw hbp hlo hhi pixels H1 H2 hF47
+
+/-- outside `nside_coverage ≤ nside_out < nside_sparse` degrade-on-read always raises -/
+theorem api_dor_out_of_range (f : FileObj) {ordOut : Nat} (h : ordOut ≥ f.spord ∨ ordOut < f.covord)
+    (red : String) (pixels : Option (List Nat)) (wf : Option FileObj) :
+    ∃ e, apiDegradeOnRead f ordOut red pixels wf = .error e :=
+  dor_out_of_range f h red pixels wf
+
+/-- … while at `nside_out = nside_sparse` the reference path returns the map read -/
+theorem api_rtd_at_sparse_order {f : FileObj} (hf : f.WF) {pixels : Option (List Nat)} {r : MapObj}
+    (hr : apiRead f pixels = .ok r) (hnp : (r.kind == Kind.packed) = false) (red : String) :
+    apiReadThenDegrade f f.spord red pixels none = .ok { r with cache := none } :=
+  rtd_at_sparse_order hf.1 hr hnp red
+
+/-- **FINDING**: every boolean file is degraded on read with `and` / `or`, and rejected by
+    read-then-degrade -/
+theorem api_dor_bool_andor {f : FileObj} (hf : f.WF) (hk : fileKind f = some (.plain .bool))
+    {ordOut : Nat} (hlo : f.covord ≤ ordOut) (hhi : ordOut < f.spord) {red : String}
+    (hao : red = "and" ∨ red = "or") {pixels : Option (List Nat)} {px : List Nat}
+    (hpx : dorPixels (fCfg f) f.file pixels = some px) :
+    (∃ a, apiDegradeOnRead f ordOut red pixels none = .ok a) ∧
+      apiReadThenDegrade f ordOut red pixels none = .error .value :=
+  dor_bool_andor hf hk hlo hhi hao hpx
+
+/-- **what a successful degrade-on-read returns**: kind recovery from the header, the reductions
+    each kind accepts (`dorAccepts`), the output dtype rule (`dorOutKind`: integer and boolean →
+    float64 except under `and` / `or`, float32 stays float32, records field by field, wide masks
+    unchanged) and the output sentinel rule (`dorOutSent`) -/
+theorem api_dor_ok_rules {f : FileObj} {ordOut : Nat} {red : String} {pixels : Option (List Nat)}
+    {wf : Option FileObj} {a : MapObj} (h : apiDegradeOnRead f ordOut red pixels wf = .ok a) :
+    ∃ kind, fileKind f = some kind ∧ f.bitpack = false ∧ f.covord ≤ ordOut ∧ ordOut < f.spord ∧
+      a.covord = f.covord ∧ a.spord = ordOut ∧ a.kind = dorOutKind kind red ∧
+      a.sent = dorOutSent kind f.sentinel red ∧ dorAccepts kind red = true ∧
+      ((red == "wmean") = true → ∃ w, wf = some w) :=
+  dor_ok_rules h
+
+/-- **what a successful read-then-degrade returns** (in range): the in-memory acceptance rule
+    `coreAccepts` (no `and` / `or` on boolean maps) and dtype rule `coreOutKind` (a float64 weight
+    map makes the `wmean` result float64) — compare `api_dor_ok_rules` -/
+theorem api_rtd_ok_rules {f : FileObj} {ordOut : Nat} (hlo : f.covord ≤ ordOut) (hhi : ordOut < f.spord)
+    {red : String} {pixels : Option (List Nat)} {wf : Option FileObj} {b : MapObj}
+    (h : apiReadThenDegrade f ordOut red pixels wf = .ok b) :
+    ∃ kind w', fileKind f = some kind ∧ f.bitpack = false ∧
+      (∀ w, wf = some w → ∃ wm, apiRead w pixels = .ok wm ∧ w' = some wm) ∧ (wf = none → w' = none) ∧
+      b.covord = f.covord ∧ b.spord = ordOut ∧ b.kind = coreOutKind kind red w' ∧
+      coreAccepts kind red = true :=
+  rtd_ok_rules hlo hhi h
+
+/-- H1 is NECESSARY on read: a successful `wmean` degrade-on-read means the weight file has the
+    map's resolutions and covers every coverage pixel processed -/
+theorem api_dor_weighted_needs_H1 {f w : FileObj} {ordOut : Nat} {pixels : Option (List Nat)}
+    {a : MapObj} (h : apiDegradeOnRead f ordOut "wmean" pixels (some w) = .ok a) :
+    w.covord = f.covord ∧ w.spord = f.spord ∧
+      ∃ px, dorPixels (fCfg f) f.file pixels = some px ∧
+        ∀ k ∈ px, covered (fCfg f) (readFull w.file) k = true :=
+  dor_weighted_ok_H1 h
+
+/-- H2 is NECESSARY in memory: a successful `wmean` read-then-degrade means the two maps read
+    have the same valid pixels -/
+theorem api_rtd_weighted_needs_H2 {f w : FileObj} (hf : f.WF) (hfk : f.KindOk) (hw : w.WF)
+    {ordOut : Nat} (hlo : f.covord ≤ ordOut) (hhi : ordOut < f.spord)
+    {pixels : Option (List Nat)} {b : MapObj}
+    (h : apiReadThenDegrade f ordOut "wmean" pixels (some w) = .ok b) :
+    ∃ r wm, apiRead f pixels = .ok r ∧ apiRead w pixels = .ok wm ∧ wm.covord = r.covord ∧
+      wm.spord = r.spord ∧ ∀ p, p < r.npix → r.vc.valid (r.abs p) = wm.vc.valid (wm.abs p) :=
+  rtd_weighted_ok_H2 hf hfk hw hlo hhi h
+
+/-! ### files written from map objects -/
+
+theorem apiWrite_bitpack (m : MapObj) (md : List (String × String)) :
+    (apiWrite m md).bitpack = true → (apiWrite m md).arrDT = "u1" := by
+  unfold apiWrite
+  cases hk : m.kind with
+  | plain dt => cases dt <;> simp
+  | _ => simp
+
+/-- what a full read of a written file returns -/
+theorem apiRead_written {m : MapObj} (hs : m.SentOK) {md : List (String × String)} {r : MapObj}
+    (h : apiRead (apiWrite m md) none = .ok r) :
+    r.covord = m.covord ∧ r.spord = m.spord ∧ r.sent = m.sent ∧ r.st = m.st ∧ r.vc = m.vc := by
+  obtain ⟨kind, hk, h1, h2, h3, h4, _, _, h5, _⟩ := apiRead_ok h
+  obtain ⟨e1, e2⟩ := fileKind_apiWrite m md hs kind hk
+  refine ⟨h1, h2, h4, h5 rfl, ?_⟩
+  unfold MapObj.vc
+  rw [h3, h4]
+  show (⟨kind.blank m.sent, kind.valid m.sent⟩ : VCfg Val) = _
+  rw [e1, e2]
+
+/-- **C19, API level, for a written map, no weight file** -/
+theorem api_dor_written_unweighted {m : MapObj} (hm : m.Ok) (md : List (String × String))
+    {ordOut : Nat} (hlo : m.covord ≤ ordOut) (hhi : ordOut < m.spord) (red : String)
+    (pixels : Option (List Nat))
+    (hbool : fileKind (apiWrite m md) = some (.plain .bool) → (red == "and" || red == "or") = false)
+    (hty : (red == "and" || red == "or") = true → ∀ v ∈ m.st.sp.toList, v.isBoolV = false) :
+    Agree (apiDegradeOnRead (apiWrite m md) ordOut red pixels none)
+      (apiReadThenDegrade (apiWrite m md) ordOut red pixels none) :=
+  api_dor_unweighted_agree (Ok.apiWrite md hm).1 hlo hhi red pixels hbool (fun _ _ _ hao => hty hao)
+
+/-- **C19, API level, for written map and weight map, whole-file read** (PARTIAL in H1, H2):
+    H1 — the weight map covers every coverage pixel of the map; H2 — same valid pixels -/
+theorem api_dor_written_weighted_partial {m wm : MapObj} (hm : m.Ok) (hwm : wm.Ok)
+    (md md' : List (String × String)) {ordOut : Nat} (hlo : m.covord ≤ ordOut)
+    (hhi : ordOut < m.spord)
+    (H1 : wm.covord = m.covord → wm.spord = m.spord →
+      ∀ k, k < m.c.ncov → covered m.c m.st k = true → covered m.c wm.st k = true)
+    (H2 : wm.covord = m.covord → wm.spord = m.spord →
+      ∀ p, p < m.npix → m.vc.valid (m.abs p) = wm.vc.valid (wm.abs p))
+    (hF47 : ∀ dt0, fileKind (apiWrite m md) = some (.plain dt0) →
+      fileKind (apiWrite wm md') = some (.plain (.flt 64)) → auxDT dt0 = .flt 64) :
+    Agree (apiDegradeOnRead (apiWrite m md) ordOut "wmean" none (some (apiWrite wm md')))
+      (apiReadThenDegrade (apiWrite m md) ordOut "wmean" none (some (apiWrite wm md'))) := by
+  obtain ⟨hf, hfk⟩ := Ok.apiWrite md hm
+  refine api_dor_weighted_partial hf hfk (Ok.apiWrite md' hwm).1 (apiWrite_bitpack wm md') hlo hhi none
+    ?_ ?_ hF47
+  · intro px hpx hco hso k hk
+    have e : px = allCovered m.c m.st := (Option.some.inj hpx).symm
+    rw [e] at hk
+    obtain ⟨h1, h2⟩ := (mem_allCovered m.c m.st k).1 hk
+    exact H1 hco hso k h1 h2
+  · intro r wr hr hwr hco hso p hp
+    obtain ⟨r1, r2, _, r4, r5⟩ := apiRead_written hm.2.2 hr
+    obtain ⟨w1, w2, _, w4, w5⟩ := apiRead_written hwm.2.2 hwr
+    have hco' : wm.covord = m.covord := by rw [← w1, ← r1]; exact hco
+    have hso' : wm.spord = m.spord := by rw [← w2, ← r2]; exact hso
+    have hp' : p < m.npix := by
+      have : r.npix = m.npix := by unfold MapObj.npix MapObj.c; rw [r1, r2]
+      rw [← this]; exact hp
+    have ea : r.abs p = m.abs p := by
+      unfold MapObj.abs MapObj.c; rw [r1, r2, r4, r5]
+    have eb : wr.abs p = wm.abs p := by
+      unfold MapObj.abs MapObj.c; rw [w1, w2, w4, w5]
+    rw [ea, eb, r5, w5]
+    exact H2 hco' hso' p hp'
+
+
+/-- the reference path SUCCEEDS for a written float map and a written float weight map with the
+    same resolutions and the same valid pixels (whole-file read); the result is float64 as soon
+    as the weights are -/
+theorem rtd_written_weighted_ok {m wm : MapObj} (hm : m.Ok) (hwm : wm.Ok)
+    (md md' : List (String × String)) {ordOut : Nat} (hlo : m.covord ≤ ordOut)
+    (hhi : ordOut < m.spord) {b0 wb : Nat}
+    (hk : fileKind (apiWrite m md) = some (.plain (.flt b0)))
+    (hwk : fileKind (apiWrite wm md') = some (.plain (.flt wb)))
+    (hco : wm.covord = m.covord) (hso : wm.spord = m.spord) (hfit : cellsFitF64 m.st.sp = true)
+    (H2 : ∀ p, p < m.npix → m.vc.valid (m.abs p) = wm.vc.valid (wm.abs p)) :
+    ∃ b, apiReadThenDegrade (apiWrite m md) ordOut "wmean" none (some (apiWrite wm md')) = .ok b ∧
+      b.kind = .plain (if wb = 64 then .flt 64 else .flt b0) := by
+  obtain ⟨hf, hfk⟩ := Ok.apiWrite md hm
+  have hw := (Ok.apiWrite md' hwm).1
+  have hpx : dorPixels (fCfg (apiWrite m md)) (apiWrite m md).file none
+      = some (allCovered (fCfg (apiWrite m md)) (readFull (apiWrite m md).file)) := rfl
+  obtain ⟨rst, hread, hro, _, _, hfull, _⟩ := read_facts hf hk hpx
+  obtain ⟨hrst, _⟩ := hfull rfl
+  have hwr : apiRead (apiWrite wm md') none
+      = .ok (readMap (apiWrite wm md') (.plain (.flt wb)) (readFull (apiWrite wm md').file)) := by
+    rw [apiRead_eq]; unfold readSpec; simp only [hwk]; rfl
+  obtain ⟨e1, e2⟩ := fileKind_apiWrite m md hm.2.2 _ hk
+  obtain ⟨w1, w2⟩ := fileKind_apiWrite wm md' hwm.2.2 _ hwk
+  have hv : ∀ p, p < (fCfg (apiWrite m md)).npix →
+      (fVC (apiWrite m md) (.plain (.flt b0))).valid
+        (abs (fCfg (apiWrite m md)) (fVC (apiWrite m md) (.plain (.flt b0))) rst p)
+      = (fVC (apiWrite wm md') (.plain (.flt wb))).valid
+        (abs (fCfg (apiWrite m md)) (fVC (apiWrite wm md') (.plain (.flt wb)))
+          (readFull (apiWrite wm md').file) p) := by
+    intro p hp
+    have ev : fVC (apiWrite m md) (.plain (.flt b0)) = m.vc := by
+      show (⟨_, _⟩ : VCfg Val) = ⟨_, _⟩
+      rw [WFFiles.apiWrite_sentinel, e1, e2]
+    have ew : fVC (apiWrite wm md') (.plain (.flt wb)) = wm.vc := by
+      show (⟨_, _⟩ : VCfg Val) = ⟨_, _⟩
+      rw [WFFiles.apiWrite_sentinel, w1, w2]
+    rw [ev, ew, hrst]
+    have := H2 p hp
+    unfold MapObj.abs MapObj.c at this
+    rw [hco, hso] at this
+    exact this
+  obtain ⟨arr, _, heval⟩ := rtd_weighted_eval (f := apiWrite m md) (w := apiWrite wm md') hfk hw hk rfl
+    hlo hhi hread hro.inv hwr hco hso hv
+  rw [heval]
+  have hfit' : cellsFitF64 (readMap (apiWrite m md) (.plain (.flt b0)) rst).st.sp = true := by
+    rw [hrst]; exact hfit
+  obtain ⟨r, hr, hkind⟩ := coreRest_wmean_plain_flt (readMap (apiWrite m md) (.plain (.flt b0)) rst)
+    ordOut rfl hfit' (some (readMap (apiWrite wm md') (.plain (.flt wb))
+      (readFull (apiWrite wm md').file))) (some arr)
+  refine ⟨r, hr, ?_⟩
+  rw [hkind]
+  by_cases hwb : wb = 64
+  · subst hwb; rfl
+  · rw [if_neg hwb, if_neg]
+    intro hc
+    obtain ⟨x, hx, hxk⟩ := isF64_true hc
+    cases hx
+    simp only [readMap] at hxk
+    injection hxk with h1
+    injection h1 with h2
+    exact hwb h2
+
+/-! ### concrete objects: counterexamples and non-vacuity -/
+
+namespace ApiWitness
+
+def okMap (x : Except Err MapObj) : MapObj :=
+  match x with
+  | .ok m => m
+  | .error _ => WFApi.blankMap (.plain .bool) (.bool false)
+
+def isOk (x : Except Err MapObj) : Bool := match x with | .ok _ => true | .error _ => false
+def errIs (x : Except Err MapObj) (e : Err) : Bool :=
+  match x with | .error e' => decide (e' = e) | .ok _ => false
+def ok2 (x y : Except Err MapObj) (p : MapObj → MapObj → Bool) : Bool :=
+  match x, y with | .ok a, .ok b => p a b | _, _ => false
+
+theorem ok2_elim {x y : Except Err MapObj} {p : MapObj → MapObj → Bool} (h : ok2 x y p = true) :
+    ∃ a b, x = .ok a ∧ y = .ok b ∧ p a b = true := by
+  cases x with
+  | error e => cases h
+  | ok a => cases y with
+    | error e => cases h
+    | ok b => exact ⟨a, b, rfl, rfl, h⟩
+
+theorem sameAs_of_agree {x y : Except Err MapObj} (h : Agree x y)
+    (hok : ok2 x y (fun _ _ => true) = true) : ∃ a b, x = .ok a ∧ y = .ok b ∧ a.SameAs b := by
+  obtain ⟨a, b, rfl, rfl, _⟩ := ok2_elim hok
+  exact ⟨a, b, rfl, rfl, h⟩
+
+/-- make an empty map (`nside_coverage = 2^co`, `nside_sparse = 2^so`) and set some pixels -/
+def build (co so : Nat) (k : Kind) (pix : List Nat) (vals : List Val) (cov : List Nat := []) : MapObj :=
+  okMap (do
+    let m ← apiMakeEmpty co so k none cov
+    apiUpdate m "replace" pix (some vals) (vals.length == 1))
+
+def exBool : MapObj := build 0 1 (.plain .bool) [5, 6] [.bool true]
+def exInt : MapObj := build 0 1 (.plain (.int 32 true)) [5, 40] [.num 7 0, .num 9 0]
+def exInt2 : MapObj := build 1 2 (.plain (.int 32 true)) [5, 40] [.num 7 0, .num 9 0]
+def exWide : MapObj := build 0 1 (.wide 1) [5, 6] [.bytes [3], .bytes [6]]
+def exRec : MapObj := build 0 1 (.recd [.flt 64, .int 32 true] 0) [5, 6]
+  [.recd [(1, 0), (5, 0)], .recd [(3, 0), (8, 0)]]
+def exF32 : MapObj := build 0 1 (.plain (.flt 32)) [5, 6] [.num 1 0, .num 3 0]
+def exF64 : MapObj := build 0 1 (.plain (.flt 64)) [5, 6] [.num 1 0, .num 3 0]
+/-- the same map with an allocated block (coverage pixel 3) that holds no valid pixel -/
+def exF64e : MapObj := build 0 1 (.plain (.flt 64)) [5, 6] [.num 1 0, .num 3 0] [3]
+def exW : MapObj := build 0 1 (.plain (.flt 64)) [5, 6] [.num 1 0]
+/-- weights with one more valid pixel (in the same coverage pixel) -/
+def exWx : MapObj := build 0 1 (.plain (.flt 64)) [5, 6, 7] [.num 1 0]
+
+theorem ex_ok : exBool.Ok ∧ exInt.Ok ∧ exInt2.Ok ∧ exWide.Ok ∧ exRec.Ok ∧ exF32.Ok ∧ exF64.Ok ∧
+    exF64e.Ok ∧ exW.Ok ∧ exWx.Ok := by decide +kernel
+
+/-- **FINDING (new)**: `read(bool_file, degrade_nside, reduction='or')` succeeds,
+    `read(bool_file).degrade(nside, 'or')` raises -/
+theorem bool_andor :
+    isOk (apiDegradeOnRead (apiWrite exBool []) 0 "or" none none) = true ∧
+    errIs (apiReadThenDegrade (apiWrite exBool []) 0 "or" none none) .value = true ∧
+    isOk (apiDegradeOnRead (apiWrite exBool []) 0 "and" none none) = true ∧
+    errIs (apiReadThenDegrade (apiWrite exBool []) 0 "and" none none) .value = true := by
+  decide +kernel
+
+/-- `nside_out = nside_sparse`: `ValueError` on read, a copy in memory -/
+theorem at_sparse_order :
+    errIs (apiDegradeOnRead (apiWrite exInt []) 1 "sum" none none) .value = true ∧
+    isOk (apiReadThenDegrade (apiWrite exInt []) 1 "sum" none none) = true := by
+  decide +kernel
+
+/-- `nside_out < nside_coverage`: rejected on read, re-housed and degraded in memory -/
+theorem below_coverage :
+    errIs (apiDegradeOnRead (apiWrite exInt2 []) 0 "sum" none none) .value = true ∧
+    isOk (apiReadThenDegrade (apiWrite exInt2 []) 0 "sum" none none) = true := by
+  decide +kernel
+
+/-- **F47**: float32 map, float64 weight file — both paths succeed, float32 on read, float64 in
+    memory: `hF47` of `api_dor_weighted_same` cannot be dropped -/
+theorem f47 : ∃ a b,
+    apiDegradeOnRead (apiWrite exF32 []) 0 "wmean" none (some (apiWrite exW [])) = .ok a ∧
+    apiReadThenDegrade (apiWrite exF32 []) 0 "wmean" none (some (apiWrite exW [])) = .ok b ∧
+    a.kind = .plain (.flt 32) ∧ b.kind = .plain (.flt 64) ∧ ¬ a.SameAs b := by
+  have h : ok2 (apiDegradeOnRead (apiWrite exF32 []) 0 "wmean" none (some (apiWrite exW [])))
+      (.ok exF32) (fun a _ => decide (a.kind = .plain (.flt 32))) = true := by
+    decide +kernel
+  obtain ⟨a, _, ha, _, hp⟩ := ok2_elim h
+  simp only [decide_eq_true_eq] at hp
+  obtain ⟨b, hb, hbk⟩ := rtd_written_weighted_ok (m := exF32) (wm := exW) ex_ok.2.2.2.2.2.1
+    ex_ok.2.2.2.2.2.2.2.2.1 [] [] (ordOut := 0) (by decide +kernel) (by decide +kernel)
+    (b0 := 32) (wb := 64) (by decide +kernel) (by decide +kernel) (by decide +kernel)
+    (by decide +kernel) (by decide +kernel) (by decide +kernel)
+  refine ⟨a, b, ha, hb, hp, hbk, ?_⟩
+  intro hs
+  have := hs.2.2.1
+  rw [hp, hbk] at this
+  cases this
+
+/-- **FINDING (new)**: a weight map with one more valid pixel (H1 holds, H2 fails: pixel 7) is
+    accepted on read and rejected in memory -/
+theorem weights_extra_valid :
+    isOk (apiDegradeOnRead (apiWrite exF64 []) 0 "wmean" none (some (apiWrite exWx []))) = true ∧
+    ¬ ∃ b, apiReadThenDegrade (apiWrite exF64 []) 0 "wmean" none (some (apiWrite exWx [])) = .ok b := by
+  refine ⟨by decide +kernel, ?_⟩
+  rintro ⟨b, hb⟩
+  obtain ⟨hf, hfk⟩ := Ok.apiWrite [] ex_ok.2.2.2.2.2.2.1
+  have hw := (Ok.apiWrite [] ex_ok.2.2.2.2.2.2.2.2.2).1
+  obtain ⟨r, wm, hr, hwr, _, _, hv⟩ := rtd_weighted_ok_H2 hf hfk hw (by decide +kernel)
+    (by decide +kernel) hb
+  obtain ⟨r1, r2, _, r4, r5⟩ := apiRead_written ex_ok.2.2.2.2.2.2.1.2.2 hr
+  obtain ⟨w1, w2, _, w4, w5⟩ := apiRead_written ex_ok.2.2.2.2.2.2.2.2.2.2.2 hwr
+  have h7 := hv 7 (by unfold MapObj.npix MapObj.c; rw [r1, r2]; decide +kernel)
+  have ea : r.abs 7 = exF64.abs 7 := by unfold MapObj.abs MapObj.c; rw [r1, r2, r4, r5]
+  have eb : wm.abs 7 = exWx.abs 7 := by unfold MapObj.abs MapObj.c; rw [w1, w2, w4, w5]
+  rw [ea, eb, r5, w5] at h7
+  revert h7
+  decide +kernel
+
+/-- **FINDING (new)**: a map with an allocated block without valid pixels that the weight map does
+    not cover (H2 holds, H1 fails: coverage pixel 3) is rejected on read and accepted in memory -/
+theorem weights_empty_block :
+    errIs (apiDegradeOnRead (apiWrite exF64e []) 0 "wmean" none (some (apiWrite exW []))) .value = true ∧
+    ∃ b, apiReadThenDegrade (apiWrite exF64e []) 0 "wmean" none (some (apiWrite exW [])) = .ok b := by
+  refine ⟨by decide +kernel, ?_⟩
+  obtain ⟨b, hb, _⟩ := rtd_written_weighted_ok (m := exF64e) (wm := exW) ex_ok.2.2.2.2.2.2.2.1
+    ex_ok.2.2.2.2.2.2.2.2.1 [] [] (ordOut := 0) (by decide +kernel) (by decide +kernel)
+    (b0 := 64) (wb := 64) (by decide +kernel) (by decide +kernel) (by decide +kernel)
+    (by decide +kernel) (by decide +kernel) (by decide +kernel)
+  exact ⟨b, hb⟩
+
+/-- the exception classes can differ: `wmean` without weights on a wide mask -/
+theorem wide_wmean_classes :
+    errIs (apiDegradeOnRead (apiWrite exWide []) 0 "wmean" none none) .notImpl = true ∧
+    errIs (apiReadThenDegrade (apiWrite exWide []) 0 "wmean" none none) .value = true := by
+  decide +kernel
+
+
+/-! #### the theorems applied (non-vacuity): both paths succeed and the results are `SameAs` -/
+
+/-- no weights: integer map / `sum` with a pixel request (one uncovered pixel, one beyond the
+    covered ones), integer `or`, wide mask `or`, record `mean`, boolean `sum`, float `median` -/
+example :
+    (∃ a b, apiDegradeOnRead (apiWrite exInt []) 0 "sum" (some [1, 7, 10]) none = .ok a ∧
+      apiReadThenDegrade (apiWrite exInt []) 0 "sum" (some [1, 7, 10]) none = .ok b ∧ a.SameAs b) ∧
+    (∃ a b, apiDegradeOnRead (apiWrite exInt []) 0 "or" none none = .ok a ∧
+      apiReadThenDegrade (apiWrite exInt []) 0 "or" none none = .ok b ∧ a.SameAs b) ∧
+    (∃ a b, apiDegradeOnRead (apiWrite exWide []) 0 "or" none none = .ok a ∧
+      apiReadThenDegrade (apiWrite exWide []) 0 "or" none none = .ok b ∧ a.SameAs b) ∧
+    (∃ a b, apiDegradeOnRead (apiWrite exRec []) 0 "mean" none none = .ok a ∧
+      apiReadThenDegrade (apiWrite exRec []) 0 "mean" none none = .ok b ∧ a.SameAs b) ∧
+    (∃ a b, apiDegradeOnRead (apiWrite exBool []) 0 "sum" (some [1]) none = .ok a ∧
+      apiReadThenDegrade (apiWrite exBool []) 0 "sum" (some [1]) none = .ok b ∧ a.SameAs b) ∧
+    (∃ a b, apiDegradeOnRead (apiWrite exF32 []) 0 "median" none none = .ok a ∧
+      apiReadThenDegrade (apiWrite exF32 []) 0 "median" none none = .ok b ∧ a.SameAs b) := by
+  obtain ⟨hB, hI, _, hW, hR, hF, _⟩ := ex_ok
+  refine ⟨?_, ?_, ?_, ?_, ?_, ?_⟩
+  · exact sameAs_of_agree (api_dor_written_unweighted hI [] (by decide +kernel) (by decide +kernel)
+      "sum" _ (fun h => by revert h; decide +kernel) (fun h => by revert h; decide +kernel))
+      (by decide +kernel)
+  · exact sameAs_of_agree (api_dor_written_unweighted hI [] (by decide +kernel) (by decide +kernel)
+      "or" _ (fun h => by revert h; decide +kernel) (fun _ => by decide +kernel))
+      (by decide +kernel)
+  · exact sameAs_of_agree (api_dor_written_unweighted hW [] (by decide +kernel) (by decide +kernel)
+      "or" _ (fun h => by revert h; decide +kernel) (fun _ => by decide +kernel))
+      (by decide +kernel)
+  · exact sameAs_of_agree (api_dor_written_unweighted hR [] (by decide +kernel) (by decide +kernel)
+      "mean" _ (fun h => by revert h; decide +kernel) (fun h => by revert h; decide +kernel))
+      (by decide +kernel)
+  · exact sameAs_of_agree (api_dor_written_unweighted hB [] (by decide +kernel) (by decide +kernel)
+      "sum" _ (fun _ => by decide +kernel) (fun h => by revert h; decide +kernel))
+      (by decide +kernel)
+  · exact sameAs_of_agree (api_dor_written_unweighted hF [] (by decide +kernel) (by decide +kernel)
+      "median" _ (fun h => by revert h; decide +kernel) (fun h => by revert h; decide +kernel))
+      (by decide +kernel)
+
+/-- `wmean` with a weight file: float64 map and weights with the same valid pixels -/
+example : ∃ a b,
+    apiDegradeOnRead (apiWrite exF64 []) 0 "wmean" none (some (apiWrite exW [])) = .ok a ∧
+    apiReadThenDegrade (apiWrite exF64 []) 0 "wmean" none (some (apiWrite exW [])) = .ok b ∧
+    a.SameAs b := by
+  have hm := ex_ok.2.2.2.2.2.2.1
+  have hw := ex_ok.2.2.2.2.2.2.2.2.1
+  have hk : fileKind (apiWrite exF64 []) = some (.plain (.flt 64)) := by decide +kernel
+  have hA := api_dor_written_weighted_partial hm hw [] [] (ordOut := 0) (by decide +kernel)
+    (by decide +kernel) (fun _ _ => by decide +kernel) (fun _ _ => by decide +kernel)
+    (fun dt0 h1 _ => by rw [hk] at h1; cases h1; rfl)
+  have h : ok2 (apiDegradeOnRead (apiWrite exF64 []) 0 "wmean" none (some (apiWrite exW [])))
+      (.ok exF64) (fun _ _ => true) = true := by decide +kernel
+  obtain ⟨a, _, ha, _, _⟩ := ok2_elim h
+  obtain ⟨b, hb, _⟩ := rtd_written_weighted_ok (m := exF64) (wm := exW) hm hw [] [] (ordOut := 0)
+    (by decide +kernel) (by decide +kernel) (b0 := 64) (wb := 64) hk (by decide +kernel)
+    (by decide +kernel) (by decide +kernel) (by decide +kernel) (by decide +kernel)
+  rw [ha, hb] at hA
+  exact ⟨a, b, ha, hb, hA⟩
+
+/-- the general finding instantiated: `api_dor_bool_andor` applies to `exBool` -/
+example : (∃ a, apiDegradeOnRead (apiWrite exBool []) 0 "and" none none = .ok a) ∧
+    apiReadThenDegrade (apiWrite exBool []) 0 "and" none none = .error .value :=
+  api_dor_bool_andor (px := [1]) (Ok.apiWrite [] ex_ok.1).1 (by decide +kernel) (by decide +kernel)
+    (by decide +kernel) (.inl rfl) (by decide +kernel)
+
+/-! #### the same findings as protocol histories (driver level; evaluated, `#guard`) -/
+
+/-- the replies of the driver to a history -/
+def replies (lines : List String) : List String :=
+  (lines.foldl (fun (acc : World × List String) l =>
+    let r := step acc.1 l; (r.1, acc.2 ++ [r.2])) ({}, [])).2
+
+-- boolean map, `or`: accepted on read, rejected in memory
+#guard replies ["cfg m kind=plain dtype=b1 covord=0 spord=1", "upd m pix=5,6 val=T", "write m f=fa",
+    "dor f=fa ord=0 red=or r=a", "read f=fa r=b", "deg b ord=0 red=or r=c"]
+  == ["ok", "ok", "ok", "ok", "ok", "err ValueError"]
+-- weights with an extra valid pixel: accepted on read, rejected in memory
+#guard replies ["cfg m kind=plain dtype=f8 covord=0 spord=1", "upd m pix=5,6 vals=1,3", "write m f=fa",
+    "cfg w kind=plain dtype=f8 covord=0 spord=1", "upd w pix=5,6,7 val=1", "write w f=fw",
+    "dor f=fa ord=0 red=wmean wf=fw r=a", "read f=fa r=b", "read f=fw r=bw",
+    "deg b ord=0 red=wmean w=bw r=c"]
+  == ["ok", "ok", "ok", "ok", "ok", "ok", "ok", "ok", "ok", "err ValueError"]
+-- allocated empty block not covered by the weights: rejected on read, accepted in memory
+#guard replies ["cfg m kind=plain dtype=f8 covord=0 spord=1 covpix=3", "upd m pix=5,6 vals=1,3",
+    "write m f=fa", "cfg w kind=plain dtype=f8 covord=0 spord=1", "upd w pix=5,6 val=1", "write w f=fw",
+    "dor f=fa ord=0 red=wmean wf=fw r=a", "read f=fa r=b", "read f=fw r=bw",
+    "deg b ord=0 red=wmean w=bw r=c"]
+  == ["ok", "ok", "ok", "ok", "ok", "ok", "err ValueError", "ok", "ok", "ok"]
+-- nside_out = nside_sparse, nside_out < nside_coverage: rejected on read, accepted in memory
+#guard replies ["cfg m kind=plain dtype=i4 covord=0 spord=1", "upd m pix=5,40 vals=7,9", "write m f=fa",
+    "dor f=fa ord=1 red=sum r=a", "read f=fa r=b", "deg b ord=1 red=sum r=c"]
+  == ["ok", "ok", "ok", "err ValueError", "ok", "ok"]
+#guard replies ["cfg m kind=plain dtype=i4 covord=1 spord=2", "upd m pix=5,40 vals=7,9", "write m f=fa",
+    "dor f=fa ord=0 red=sum r=a", "read f=fa r=b", "deg b ord=0 red=sum r=c"]
+  == ["ok", "ok", "ok", "err ValueError", "ok", "ok"]
+
+end ApiWitness
 
 end C19
 end HS
